@@ -235,6 +235,10 @@ func onRuleUpdate(rawResRulesMap map[string][]*Rule) (err error) {
 func LoadRules(rules []*Rule) (bool, error) {
 	resRulesMap := make(map[string][]*Rule, 16)
 	for _, rule := range rules {
+		if rule == nil {
+			// nil elements are ignored like any other invalid rule
+			continue
+		}
 		resRules, exist := resRulesMap[rule.Resource]
 		if !exist {
 			resRules = make([]*Rule, 0, 1)
